@@ -1,10 +1,25 @@
-//! C02 — not built yet.
+//! C02 Valid payload is never silently dropped (completeness direction + clean/faulty differential).
 
+use proptest::strategy::Strategy;
+
+use crate::c01::judge_scenario;
 use crate::core::*;
+use crate::erpki::*;
+use crate::escen::*;
 
-pub const IMPLEMENTED: bool = false;
-
-pub fn run(_ctx: &Ctx, _rep: &mut Report, _replay: Option<&serde_json::Value>) {
-    eprintln!("C02: check not implemented");
-    std::process::exit(2);
+pub fn run(ctx: &Ctx, rep: &mut Report, replay: Option<&serde_json::Value>) {
+    rep.rule("same E-rpki single-run scenarios as C01, completeness direction: every item of every valid, enabled object under an accepted chain (minus documented filters: prefix-length limits, unsafe-VRP reject, disabled BGPsec/ASPA) must be served; non-trivial = >=1 fault and >=1 valid payload item elsewhere; distinct by serialised scenario");
+    rep.assume("reference model Appendix A; see C01");
+    let profile = Profile::default();
+    ctx.shrink_iters.store(150, std::sync::atomic::Ordering::Relaxed);
+    if let Some(v) = replay {
+        let t: Tagged<Scenario> = serde_json::from_value(v.clone()).expect("replay");
+        run_case(ctx, rep, &t.sub, &t.case, |sc, i| judge_scenario("C02", sc, i, false, true));
+        return;
+    }
+    let p = profile.clone();
+    run_prop_par(ctx, rep, "single", ctx.tier.pick(320, 8000), 16, || genome(160).prop_map({
+        let p = p.clone();
+        move |w| single_run(&w, &p)
+    }), |sc, i| judge_scenario("C02", sc, i, false, true));
 }
